@@ -217,10 +217,14 @@ func analyse(seed int64, d *roundData, witnessed map[string]bool) roundOut {
 		return map[string]any{"seed": seed, "round": d.cfg.Idx, "cfg": d.cfg, "project": pk, "final_view": d.views[pk], "calls": d.calls(pk), "yields": ys,
 			"replay": fmt.Sprintf("VERIF_SEED=%d ./check C27 re-runs this round (round index %d); schedules are not reproducible bit-for-bit, the recorded history is the witness", seed, d.cfg.Idx)}
 	}
-	report := func(rule, sig, desc, pk string) {
-		v := violOut{Rule: rule, Sig: sig, Desc: desc}
-		if !witnessed[rule+"|"+sig] {
+	// clean: no duplicate session object in the project, i.e. the witness shows this violation on its own
+	report := func(rule, sig, desc, pk string, clean bool) {
+		v := violOut{Rule: rule, Sig: sig, Desc: desc, Round: d.cfg.Idx, Clean: clean}
+		if !witnessed[rule+"|"+sig] || (clean && !witnessed["clean|"+rule+"|"+sig]) {
 			witnessed[rule+"|"+sig] = true
+			if clean {
+				witnessed["clean|"+rule+"|"+sig] = true
+			}
 			v.Witness = witness(pk)
 		}
 		o.Viol = append(o.Viol, v)
@@ -311,7 +315,7 @@ func analyse(seed int64, d *roundData, witnessed map[string]bool) roundOut {
 
 	// ---- (c) online oracles: one object per id, in-use counter
 	for _, v := range d.online {
-		report(v.Rule, v.Sig, v.Desc, v.PKey)
+		report(v.Rule, v.Sig, v.Desc, v.PKey, true)
 	}
 
 	// ---- per project
@@ -442,7 +446,7 @@ func analyse(seed int64, d *roundData, witnessed map[string]bool) roundOut {
 					}
 					// (d) accepted relay numbers strictly increase
 					if h.RelayNum <= lastDone {
-						report("relay-number-not-increasing", "accepted-number<=last-completed-number", fmt.Sprintf("round %d: session %d (object #%d) of %s accepted relay number %d after relay number %d had completed", d.cfg.Idx, sid, ob, pk, h.RelayNum, lastDone), pk)
+						report("relay-number-not-increasing", "accepted-number<=last-completed-number", fmt.Sprintf("round %d: session %d (object #%d) of %s accepted relay number %d after relay number %d had completed", d.cfg.Idx, sid, ob, pk, h.RelayNum, lastDone), pk, !dupInProject)
 					}
 					base = h.CEnd
 				} else if h.CEnd != h.C0 {
@@ -560,7 +564,11 @@ func analyse(seed int64, d *roundData, witnessed map[string]bool) roundOut {
 				all = append(all, f.rule+": "+f.desc)
 			}
 			o.Suppressed["accounting_facets_folded_into_first"] += len(facets) - 1
-			report("cu-accounting", sig, fmt.Sprintf("round %d: %s", d.cfg.Idx, strings.Join(all, " || ")), pk)
+			dupNote := "no duplicate session object in this project"
+			if dupInProject {
+				dupNote = "the project also has duplicate session objects (reported separately; their CuSums are included in the sum)"
+			}
+			report("cu-accounting", sig, fmt.Sprintf("round %d (%s): %s", d.cfg.Idx, dupNote, strings.Join(all, " || ")), pk, !dupInProject)
 		}
 		if dupInProject {
 			cnt["projects_analysed_with_duplicate_session_objects"]++
